@@ -58,6 +58,11 @@ def make_scenario(sub, k, big=False):
     r = random.Random(sub)
     mode, src = CONFIGS[k % len(CONFIGS)]
     tspec = scen.gen_tspec(r, n_types=r.randint(2, 8 if big else 6), max_feats=r.randint(1, 5))
+    if r.random() < 0.4:  # separately stored (shared) string collections, often empty: the formats differ most there
+        t0 = tspec[0]
+        if not any(f["name"] in ("sa", "sl") for t in tspec for f in t["feats"]):
+            t0["feats"].append({"name": "sa", "range": scen.T + "StringArray", "elem": None, "multi": True})
+            t0["feats"].append({"name": "sl", "range": scen.T + "StringList", "elem": None, "multi": r.choice([True, None])})
     cspec = scen.gen_cspec(r, cassis, tspec, n_objs=(1, 12 if big else 6), all_ids=True)
     for v in cspec["views"]:
         v.setdefault("uri", None)
